@@ -115,8 +115,11 @@ def check(case, stats, scratch, profile):
     for arr in case["arrangements"]:
         files = arrange(p, arr)
         stats.evaluations += 1
-        multi = len(files) >= 2
+        multi = any("#import(" in t for t in files.values())
         stats.cls(f"files.{len(files)}")
+        stats.cls("with-cross-file-reference" if multi else "no-cross-file-reference")
+        if any("#import(\"main.capy\")" in t for t in files.values()):
+            stats.cls("import-cycle-through-main")
         o = runner.run_case(scratch, files)
         replay = {"base": {"main.capy": base_src}, "arranged": files}
         if o.kind in ("timeout", "exe-timeout"):
